@@ -18,7 +18,9 @@ ASSUMPTIONS = [
     "roots pairwise disjoint; value bound to an OID is a function of the OID",
 ]
 
-POLICIES = [{}, {"rows": 1}, {"rows": 2}, {"cut": 1}, {"cut": 2}, {"rows": 3, "cut": 1}, {"stop": False}, {"stop": False, "cut": 1}]
+POLICIES = [{}, {"rows": 1}, {"rows": 2}, {"cut": 1}, {"cut": 2}, {"rows": 3, "cut": 1}, {"stop": False}, {"stop": False, "cut": 1},
+            # RFC 3416 4.2.3: the cut may reach into the first repetition (>= 1 binding is kept)
+            {"cut": 1, "deep": True}, {"cut": 2, "deep": True, "rows": 1}, {"cut": 3, "deep": True, "rows": 2}, {"cut": 1, "deep": True, "rows": 1, "stop": False}]
 
 CORPUS = [
     # A2: adjacent subtrees of different sizes, overrunning column duplicates an OID
@@ -52,7 +54,7 @@ def run(ctx):
     reqs, impls = [], []
     for db, roots, size, pol, version, level, origin in _cases(ctx):
         spec = {"db": db, "policy": pol}
-        walk, agent = W.impl_walk(spec, roots, "bulk", size=size, version=version, level=level, budget=len(db) + 8)
+        walk, agent = W.impl_walk(spec, roots, "bulk", size=size, version=version, level=level, budget=(len(db) + 8) * (len(roots) if pol.get("deep") else 1))
         nb = len(W.below(db, roots))
         res.count(f"origin:{origin}")
         res.count(f"proto:{version}/{level}")
@@ -60,7 +62,7 @@ def run(ctx):
         res.count(f"size:{size}")
         res.count("policy:" + (",".join(f"{k}={v}" for k, v in sorted(pol.items())) or "full"))
         case = {"db": db, "roots": roots, "size": size, "policy": pol, "version": version, "level": level}
-        bad = W.oracle_exact(db, roots, walk)
+        bad = W.oracle_exact(db, roots, walk, per_binding=bool(pol.get("deep")))
         if bad and walk["outcome"] == ["error", ["authError"]] and agent.raw_log and auth_len127(agent.raw_log[-1][1]):
             res.count("hit:C10-len127")
             res.violate("e2e-bulk", case, "walk completes", walk, bad, {"kind": "auth-reject-len127"})
@@ -75,7 +77,7 @@ def run(ctx):
                 bad = "bulk walk and GETNEXT walk return different instance sets"
         if bad:
             res.violate("e2e-bulk", case, "exactly the instances below the roots, as the GETNEXT walk", walk, bad, _signature(roots, bad))
-        reqs.append(W.model_request(spec, roots, "bulk", size=size, fuel=len(db) + 8))
+        reqs.append(W.model_request(spec, roots, "bulk", size=size, fuel=(len(db) + 8) * (len(roots) if pol.get("deep") else 1)))
         impls.append((case, walk, nb > 0 or len(db) > 0))
     if ctx.driver_ok:
         for (case, walk, nontrivial), ans in zip(impls, run_driver(reqs)):
@@ -107,7 +109,7 @@ def search(ctx, res):
 def replay(ctx, payload):
     case = payload["case"]
     walk, _ = W.impl_walk({"db": case["db"], "policy": case.get("policy", {})}, case["roots"], "bulk", size=case["size"], version=case.get("version", "v2c"), level=case.get("level", "noauth"), budget=len(case["db"]) + 8)
-    bad = W.oracle_exact(case["db"], case["roots"], walk)
+    bad = W.oracle_exact(case["db"], case["roots"], walk, per_binding=bool((case.get("policy") or {}).get("deep")))
     print("trace", walk)
     print("oracle:", bad or "ok")
     return 1 if bad else 0
